@@ -113,6 +113,8 @@ pub fn run(ctx: &mut Ctx) {
     let n_fft = if thorough { 40000 } else { 2500 };
     let mut model_q: Vec<String> = vec![];
     let mut model_expect: Vec<(String, Vec<u16>, Vec<bool>)> = vec![];
+    let mut src_q: Vec<String> = vec![];
+    let mut src_expect: Vec<(String, Vec<u16>, Vec<bool>)> = vec![];
     for i in 0..n_fft {
         let c = gen_fft_case(ctx, if i % 50 == 0 { 12 } else { 8 });
         let outs: Vec<Vec<[u8; 64]>> = prims.iter().map(|(_, p)| run_fft(p.as_ref(), &c)).collect();
@@ -145,6 +147,15 @@ pub fn run(ctx: &mut Ctx) {
         // correspondence on lane 0 for small cases
         if c.count <= 40 && model_q.len() < if thorough { 6000 } else { 600 } {
             let syms: Vec<String> = (0..c.count).map(|p| get_sym(&c.data[p * c.len64..(p + 1) * c.len64], 0).to_string()).collect();
+            // the loop nests as translated from today's source (srcengine), one query per engine family
+            for (k, (ename, _)) in prims.iter().enumerate() {
+                if ["naive", "nosimd", "ssse3", "avx2"].contains(&ename.as_str()) && src_q.len() < if thorough { 8000 } else { 800 } {
+                    src_q.push(format!("G {} {} {} {} {} {} {}", ename, if c.inverse { "ifft" } else { "fft" }, c.pos, c.size, c.trunc, c.delta, syms.join(",")));
+                    let got: Vec<u16> = (0..c.count).map(|p| get_sym(&outs[k][p * c.len64..(p + 1) * c.len64], 0)).collect();
+                    let valid: Vec<bool> = (0..c.count).map(|p| p < c.pos || p >= c.pos + c.size || p < c.pos + valid_hi).collect();
+                    src_expect.push((format!("{} {}", ename, describe(&c)), got, valid));
+                }
+            }
             // pointwise model and transliterated sequential loops, both schedules
             for (sched, k, seq) in [("naive", 0usize, ""), ("two", 1usize, ""), ("naive", 0usize, "seq"), ("two", 1usize, "seq")] {
                 model_q.push(format!("T {}{} {} {} {} {} {} {}", if c.inverse { "ifft" } else { "fft" }, seq, sched, c.pos, c.size, c.trunc, c.delta, syms.join(",")));
@@ -160,7 +171,7 @@ pub fn run(ctx: &mut Ctx) {
         let log_m: u16 = match i % 8 { 0 => 0, 1 => 1, 2 => 65534, 3 => 65535, _ => ctx.rng.below(65536) as u16 };
         let len = ctx.rng.range(1, 5);
         let mut x = vec![[0u8; 64]; len];
-        for b in x.iter_mut() { b.copy_from_slice(&ctx.rng.bytes(64)); }
+        for b in x.iter_mut() { *b = if i % 2 == 0 { structured_block(ctx) } else { let mut r = [0u8; 64]; r.copy_from_slice(&ctx.rng.bytes(64)); r }; }
         let outs: Vec<Vec<[u8; 64]>> = prims.iter().map(|(_, p)| { let mut y = x.clone(); p.mul(&mut y, log_m); y }).collect();
         ctx.evaluations += 1;
         for k in 1..outs.len() {
@@ -185,6 +196,41 @@ pub fn run(ctx: &mut Ctx) {
             if outs[k][..] != outs[0][..] {
                 let case = Case { name: format!("eval_poly hi={} trunc={}", hi, trunc), lines: vec![], with_model: false };
                 ctx.oracle_fail(format!("engines {} and {} differ in eval_poly (marks below {}, truncated_size {})", prims[0].0, prims[k].0, hi, trunc), &case, None);
+            }
+        }
+    }
+    // translated engine loops (lane 0): validation of rs2lean_engine.py against the implementation
+    {
+        let exe = std::path::Path::new(&ctx.model_path).with_file_name("srcengine");
+        if !exe.exists() {
+            ctx.unavailable.push("srcengine not built: the translated engine loops were not run against the implementation".into());
+        } else {
+            let path = exe.to_string_lossy().to_string();
+            let chunks: Vec<Vec<String>> = src_q.chunks((src_q.len() + 13) / 14).map(|c| c.to_vec()).collect();
+            let handles: Vec<_> = chunks.into_iter().map(|c| { let p = path.clone(); std::thread::spawn(move || crate::ctx::model_eval_at(&p, &c)) }).collect();
+            let mut ans: Vec<String> = vec![];
+            let mut failed = false;
+            for h in handles {
+                match h.join().unwrap() {
+                    Ok(a) => ans.extend(a),
+                    Err(e) => { let c = Case::new("src-engine-tie"); ctx.model_fail(format!("srcengine could not be run: {}", e), &c, None); failed = true; break; }
+                }
+            }
+            if !failed {
+                let mut bad = 0;
+                for ((q, a), (desc, got, valid)) in src_q.iter().zip(ans.iter()).zip(src_expect.iter()) {
+                    let m: Vec<u16> = a.trim_start_matches("ok ").split(',').filter_map(|x| x.parse().ok()).collect();
+                    let ok = a.starts_with("ok ") && m.len() == got.len() && (0..m.len()).all(|p| !valid[p] || m[p] == got[p]);
+                    if !ok {
+                        bad += 1;
+                        if bad <= 5 {
+                            let case = Case { name: format!("src-engine: {}", desc), lines: vec![q.clone()], with_model: false };
+                            ctx.model_fail(format!("translated engine loop disagrees with the implementation on a contract-valid output: {} -> `{}`", desc, crate::ctx::short(a)), &case, None);
+                        }
+                    }
+                }
+                ctx.bump("translated_engine_loops_vs_implementation", src_q.len());
+                ctx.model_lines += src_q.len();
             }
         }
     }
